@@ -11,7 +11,10 @@ oracle/search : on the implementation: p dPi/dp == n (Richardson central differe
                 of the implementation's own loading(x)/x, Pi(0) == 0, increasing; ModelIsotherm.spreading_pressure_at converts first;
                 PointIsotherm.spreading_pressure_at - on a FRESH isotherm AND on one that has answered other calls - vs quadrature of its
                 own interpolant; range guard: above the data CalculationError, below the first point the Henry value (Models/SpreadPoint.v
-                sp_point_at); statelessness: the same model OBJECT re-parametrised and asked again at pressures already seen == a fresh model
+                sp_point_at); statelessness: the same model OBJECT re-parametrised and asked again at pressures already seen == a fresh model;
+                point isotherms AFTER HISTORIES of queries and permanent conversions (convert_pressure unit / mode, convert_loading unit-only /
+                basis, convert_material unit-only / basis, convert(...)): after every conversion spreading_pressure_at is compared with
+                Models/SpreadPoint.v executed inside Coq on the isotherm's CURRENT rows and with a fresh twin holding those rows
 """
 import math
 import random
@@ -32,7 +35,8 @@ MANIFEST = dict(
          "transcription of PointIsotherm.spreading_pressure_at is proved, by induction over ARBITRARY row lists with strictly increasing positive pressures, "
          "to equal the integral from 0 to p of interpolant(x)/x (Henry line below the first point, linear interpolation above), plus additivity; the "
          "transcription is executed inside Coq against the implementation on random isotherms, query positions (below / at knots / between / at the edge) "
-         "and unit arguments.",
+         "and unit arguments, and on isotherms that have been queried and permanently converted (unit-only and basis / mode conversions of pressure, loading, "
+         "material) on their CURRENT rows, next to a fresh twin holding the same rows.",
     note="Trusted: Coq kernel; Reals/Coquelicot axioms; translator tools/py2v_formulas.py (validated by IR re-evaluation and interval goals); the hand model "
          "SpreadPoint.v is tied by execution on sampled isotherms only; scipy interp1d (= linear interpolation) and scipy.integrate.quad are oracles; unit "
          "conversion of the rows is taken from the isotherm's own accessors (C03); IEEE rounding excluded. The cached-interpolator range guard is C04's.",
@@ -230,6 +234,15 @@ def explore(rep, tier, seed):
     except Exception as e:  # noqa
         import traceback
         rep.broken_obligation('correspondence:point-isotherm', traceback.format_exc()[-800:])
+    # ------------------------------------------------------------ point isotherms after histories of queries and permanent conversions
+    try:
+        n_h, h_failed, h_cases = point_isotherm_histories(rep, rnd, 40 if thorough else 10, bump, nontrivial)
+        evals += n_h
+        rep.cov.setdefault('correspondence', {})['point_history_goals'] = h_cases
+        rep.cov['correspondence']['point_history_goals_failed'] = h_failed
+    except Exception as e:  # noqa
+        import traceback
+        rep.broken_obligation('correspondence:point-isotherm-histories', traceback.format_exc()[-800:])
     rep.cov['evaluations'] += evals
     rep.cov['distinct_nontrivial'] = len(nontrivial)
     rep.cov['rule'] = ('models: random parameter vectors strictly inside the bounds x one pressure p of the validity range and one q in (0.2p, 0.8p): Gibbs identity by '
@@ -237,7 +250,9 @@ def explore(rep, tier, seed):
                        'every model object is then re-parametrised and asked again at the pressures it has already answered (== a fresh model); '
                        'point isotherms: random strictly increasing pressures (4-9 rows) with Langmuir / random / S-shaped / plateau (consecutive equal loadings) data x query '
                        'pressures below the first point / at knots / between / beyond a flat segment / at the edge / just above and far above x unit arguments, each on a fresh '
-                       'isotherm AND on one isotherm per data set that has answered 1-4 other calls (interpolations with and without fill values, refused calls). non-trivial = distinct (model, parameters, p, q) whose interval integral agreed + distinct '
+                       'isotherm AND on one isotherm per data set that has answered 1-4 other calls (interpolations with and without fill values, refused calls); histories: per data set a first '
+                       'interpolation, then random steps (queries; convert_loading unit-only / basis; convert_material unit-only / basis; convert_pressure unit / mode; convert(...)) until 3 '
+                       'conversions succeeded, after each conversion 2 queries (below / knots / between / last segment / edge) against the Coq model on the current rows and a fresh twin. non-trivial = distinct (model, parameters, p, q) whose interval integral agreed + distinct '
                        '(isotherm, query, units) whose Coq evaluation agreed at a pressure above the first data point')
     rep.cov['input_distribution'] = dict(sorted(hist.items()))
     rep.cov['samples'] += samples
@@ -512,11 +527,188 @@ def point_isotherms(rep, rnd, n_iso, bump, nontrivial):
     return count, len(failed), len(goals)
 
 
+# ------------------------------------------------------------------ point isotherms with a HISTORY of queries and permanent conversions
+LABELS = ('pressure_mode', 'pressure_unit', 'loading_basis', 'loading_unit', 'material_basis', 'material_unit')
+UNITS_OF = {'molar': ['mol', 'mmol', 'kmol'], 'mass': ['mg', 'g', 'kg'], 'volume_liquid': ['cm3', 'dm3', 'm3'], 'volume': ['cm3', 'dm3', 'm3']}
+
+
+def make_point_iso_labelled(P, L, labels):
+    """a fresh PointIsotherm holding exactly these rows, declared in the given mode / basis / units (no conversion takes place)"""
+    import pygaps
+    from props import c02
+    key = 'verif_ads_c10'
+    if key not in c02._ADS:
+        c02._ADS[key] = pygaps.Adsorbate(key, store=True, **c02.ADS_FULL)
+    mat = pygaps.Material('verif_mat_c10', **c02.MAT_FULL)
+    return pygaps.PointIsotherm(pressure=list(P), loading=list(L), material=mat, adsorbate=key, temperature=77.355, **labels)
+
+
+def current_labels(iso):
+    return {k: getattr(iso, k) for k in LABELS}
+
+
+def current_rows(iso):
+    return [float(x) for x in iso.pressure(branch='ads')], [float(x) for x in iso.loading(branch='ads')]
+
+
+def random_history_step(rnd, iso):
+    """one step of a history, chosen from the isotherm's CURRENT labels: a query that leaves an interpolator behind, or a permanent
+    conversion - of the unit alone (within the current basis / mode) or of the basis / mode"""
+    lab = current_labels(iso)
+    kind = rnd.choice(['query', 'loading-unit', 'loading-unit', 'loading-basis', 'material-unit', 'material-basis', 'pressure-unit', 'pressure-mode', 'convert'])
+    if kind == 'query':
+        return [rnd.choice(['loading_at', 'spreading_pressure_at', 'pressure_at', 'loading_at:fill']), {'frac': round(rnd.uniform(0.1, 0.95), 3)}]
+    if kind == 'loading-unit':
+        if lab['loading_basis'] not in UNITS_OF:       # percent / fraction have no unit: change the basis instead
+            return ['convert_loading', {'basis_to': 'molar', 'unit_to': rnd.choice(UNITS_OF['molar'])}]
+        return ['convert_loading', {'unit_to': rnd.choice([u for u in UNITS_OF[lab['loading_basis']] if u != lab['loading_unit']])}]
+    if kind == 'loading-basis':
+        b = rnd.choice([x for x in ('molar', 'mass', 'volume_liquid', 'percent', 'fraction') if x != lab['loading_basis']])
+        return ['convert_loading', {'basis_to': b, 'unit_to': rnd.choice(UNITS_OF[b])} if b in UNITS_OF else {'basis_to': b}]
+    if kind == 'material-unit':
+        return ['convert_material', {'unit_to': rnd.choice([u for u in UNITS_OF[lab['material_basis']] if u != lab['material_unit']])}]
+    if kind == 'material-basis':
+        b = rnd.choice([x for x in ('mass', 'volume', 'molar') if x != lab['material_basis']])
+        return ['convert_material', {'basis_to': b, 'unit_to': rnd.choice(UNITS_OF[b])}]
+    if kind == 'pressure-unit':
+        return ['convert_pressure', {'mode_to': 'absolute', 'unit_to': rnd.choice([u for u in ('bar', 'kPa', 'Pa', 'torr', 'atm') if u != lab['pressure_unit']])}]
+    if kind == 'pressure-mode':
+        if lab['pressure_mode'] == 'absolute':
+            return ['convert_pressure', {'mode_to': rnd.choice(['relative', 'relative%'])}]
+        return ['convert_pressure', {'mode_to': 'absolute', 'unit_to': rnd.choice(['bar', 'kPa', 'torr'])}]
+    kw = {}
+    if lab['pressure_mode'] == 'absolute':
+        kw['pressure_unit'] = rnd.choice(['bar', 'kPa', 'Pa', 'torr'])
+    if lab['loading_basis'] in UNITS_OF:
+        kw['loading_unit'] = rnd.choice(UNITS_OF[lab['loading_basis']])
+    kw['material_unit'] = rnd.choice(UNITS_OF[lab['material_basis']])
+    return ['convert', kw]
+
+
+def do_history_step(iso, step):
+    """apply one recorded step. Queries are positioned relative to the CURRENT rows. Returns the outcome class (refusals are part of the history)"""
+    name, kw = step
+    try:
+        if name.startswith('convert'):
+            getattr(iso, name)(**kw)
+            return 'Ok'
+        P, L = current_rows(iso)
+        x = P[0] * (P[-1] / P[0]) ** kw['frac']
+        if name == 'loading_at':
+            iso.loading_at(x)
+        elif name == 'loading_at:fill':
+            iso.loading_at(P[-1] * 1.5, interp_fill=(0.0, L[-1]))
+        elif name == 'spreading_pressure_at':
+            iso.spreading_pressure_at(x)
+        else:
+            iso.pressure_at(L[0] + (L[-1] - L[0]) * kw['frac'])
+        return 'Ok'
+    except Exception as e:  # noqa
+        return type(e).__name__
+
+
+def history_query(P, where, frac):
+    if where == 'below': return P[0] * frac
+    if where == 'first-knot': return P[0]
+    if where == 'knot': return P[1 + int(frac * (len(P) - 2)) % (len(P) - 2)]
+    if where == 'edge': return P[-1]
+    if where == 'last-segment': return P[-2] + (P[-1] - P[-2]) * frac
+    return P[0] * (P[-1] / P[0]) ** frac       # between (log-uniform over the data range)
+
+
+def point_isotherm_histories(rep, rnd, n_iso, bump, nontrivial):
+    """PointIsotherm.spreading_pressure_at AFTER histories of queries and permanent conversions (pressure unit / mode, loading unit / basis,
+    material unit / basis, convert(...)): after every conversion the value is compared (a) with the hand model Models/SpreadPoint.v executed
+    inside Coq on the isotherm's CURRENT rows (= the integral of the Henry-continued interpolant of those rows, theorem
+    sp_point_is_integral) and (b) with a fresh twin: a new PointIsotherm holding exactly the current rows under the current labels."""
+    from fractions import Fraction
+    goals = []
+    count = 0
+    for k in range(n_iso):
+        made = point_rows(rnd)
+        if made is None:
+            continue
+        P0, L0, shape = made
+        iso = make_point_iso(P0, L0)
+        steps = [['loading_at', {'frac': round(rnd.uniform(0.2, 0.9), 3)}]]      # the adsorption interpolator exists before the first conversion
+        do_history_step(iso, steps[0])
+        n_conv = 0
+        while n_conv < 3 and len(steps) < 12:
+            st = random_history_step(rnd, iso)
+            before = current_labels(iso)
+            oc = do_history_step(iso, st)
+            steps.append(st + [oc])
+            if not st[0].startswith('convert'):
+                continue
+            if oc != 'Ok':
+                bump('point-history:conversion-refused')
+                continue
+            n_conv += 1
+            after = current_labels(iso)
+            conv_kind = st[0] + ':' + ('unit-only' if all(before[x] == after[x] for x in ('pressure_mode', 'loading_basis', 'material_basis')) else 'basis-or-mode')
+            P, L = current_rows(iso)
+            labels = current_labels(iso)
+            if not (all(x == x and 0 < x < 1e300 for x in P + L) and all(a < b for a, b in zip(P, P[1:]))):
+                bump('point-history:rows-not-usable')
+                break
+            for where in rnd.sample(['below', 'first-knot', 'knot', 'edge', 'between', 'between', 'last-segment'], 2):
+                frac = round(rnd.uniform(0.05, 0.95), 3)
+                arg = history_query(P, where, frac)
+                count += 1
+                rp = {'clause': 'point-history', 'P': P0, 'L': L0, 'steps': [s[:2] for s in steps], 'where': where, 'frac': frac, 'query': arg,
+                      'labels': labels, 'rows_now': [P, L]}
+                got = call_outcome(iso.spreading_pressure_at, arg)
+                twin = call_outcome(make_point_iso_labelled(P, L, labels).spreading_pressure_at, arg)
+                bump('point-history:%s:%s:%s' % (conv_kind, where, got[0]))
+                if not (got[0] == twin[0] and (got[0] != 'Ok' or abs(got[1] - twin[1]) <= 1e-9 * abs(twin[1]) + 1e-300)):
+                    rep.failure('C11:unclassified:point-history:%s:differs-from-fresh-twin' % conv_kind,
+                                'after the history %r the isotherm (rows now %r / %r, %r) answers spreading_pressure_at(%r) [%s] with %r; a fresh isotherm holding '
+                                'the same rows under the same labels gives %r' % ([s[:2] for s in steps], P, L, labels, arg, where, got, twin), rp)
+                    if got[0] != 'Ok':
+                        continue            # (an answered call is ALSO judged against the integral of the current rows, below)
+                if got[0] != 'Ok':
+                    rep.failure('C11:unclassified:point-history:%s:%s' % (conv_kind, got[0]),
+                                'after the history %r spreading_pressure_at(%r) [%s] inside the data range raised %s' % ([s[:2] for s in steps], arg, where, got[0]), rp)
+                    continue
+                rows = '[' + '; '.join('(%s, %s)' % (fl.rlit(a), fl.rlit(b)) for a, b in zip(P, L)) + ']'
+                tol = fl.rlit(Fraction(abs(got[1]) * 1e-9 + 1e-300).limit_denominator(10 ** 320))
+                goals.append((rp, 'Goal exists v, sp_point_at %s %s = Value v /\\ Rabs (v - %s) <= %s.\nProof. sp_point_answered. Qed.\n'
+                              % (rows, fl.rlit(arg), fl.rlit(got[1]), tol)))
+                if arg > P[0]:
+                    nontrivial.add(('point-history', tuple(P0), tuple(L0), len(steps), where, frac))
+    n_ok, failed = fl.run_goals('c11h', [(str(i), g) for i, (rp, g) in enumerate(goals)], header=PT_HEADER, per_file=10)
+    for label, msg in failed[:6]:
+        rp = goals[int(label)][0]
+        last = [s for s in rp['steps'] if s[0].startswith('convert')][-1]
+        # the hand model is PROVED to be the integral of the interpolant of the rows it is given (sp_point_is_integral): a disagreement on the
+        # isotherm's own current rows is a concrete input on which the implementation's value is not that integral
+        rep.failure('C11:unclassified:point-history:%s:not-the-integral-of-the-current-rows' % last[0],
+                    'after the history %r the isotherm holds the rows %r under %r, but spreading_pressure_at(%r) [%s] is not the integral of their '
+                    'Henry-continued interpolant (Models/SpreadPoint.v evaluated inside Coq on these rows: %s)' % (rp['steps'], rp['rows_now'], rp['labels'], rp['query'], rp['where'], msg[-160:]), rp)
+    return count, len(failed), len(goals)
+
+
+def replay_history(r):
+    iso = make_point_iso(r['P'], r['L'])
+    print('rows', r['P'], r['L'], '(bar, mmol/g)')
+    for st in r['steps']:
+        print('  step', st, '->', do_history_step(iso, st))
+    P, L = current_rows(iso)
+    labels = current_labels(iso)
+    arg = history_query(P, r['where'], r['frac'])
+    print('rows now', P, L, labels)
+    print('isotherm with this history: spreading_pressure_at(%r) ->' % arg, call_outcome(iso.spreading_pressure_at, arg))
+    print('fresh isotherm, same rows  : spreading_pressure_at(%r) ->' % arg, call_outcome(make_point_iso_labelled(P, L, labels).spreading_pressure_at, arg))
+    return 1
+
+
 def replay(d):
     import warnings
     warnings.filterwarnings('ignore')
     np.seterr(all='ignore')
     r = d['replay']
+    if r.get('clause') == 'point-history':
+        return replay_history(r)
     if r.get('clause') == 'point':
         print('rows', r['P'], r['L'], 'query', r['query'], r['where'], r['units'])
         print('fresh isotherm: spreading_pressure_at ->', call_outcome(make_point_iso(r['P'], r['L']).spreading_pressure_at, r['query'], **r['units']))
